@@ -88,6 +88,13 @@ class ObjectDomain(LazyGenerators, EffectDomain):
     def _method(self, ci, name):
         owner, f = self.classes.resolve_method(ci, name)
         if isinstance(f, FUNC_TYPES) and self._followed(owner):
+            # a class earlier in the MRO that assigns the name in its body to something made there (name = factory(...)) comes first
+            for c in self.classes.mro(ci):
+                if c is owner:
+                    break
+                v = c.attrs.get(name) if not c.external else None
+                if v is not None and name not in c.methods and isinstance(v, ast.Call) and dotted(v.func) != "property":
+                    return None
             return f
         return None
 
@@ -116,6 +123,8 @@ class ObjectDomain(LazyGenerators, EffectDomain):
                         return ("made", got[0], s_.value, names_.index(expr.args[0].id))
                 if isinstance(s_, ast.Assign) and len(s_.targets) == 1 and isinstance(s_.targets[0], ast.Name) and s_.targets[0].id == expr.args[0].id:
                     return ("made", got[0], s_.value, None)
+        if isinstance(expr, ast.Call) and dotted(expr.func) == "property" and expr.args and isinstance(expr.args[0], (ast.Call, ast.Lambda, ast.Attribute)):
+            return ("made", got[0], expr.args[0], None)   # name = property(attrgetter(...)) / property(lambda self: ...): the getter is what that expression makes
         return None
 
     def _run_getter(self, interp, getter, selfval, st, fr, **inline_kw):
@@ -180,6 +189,8 @@ class ObjectDomain(LazyGenerators, EffectDomain):
         if attr == "__setattr__" and self._method(ci, attr) is None:
             return [val(("setattrmethod", inst), st)]   # object.__setattr__ bound to the instance: setattr(inst, name, value)
         prop = self._declared_property(ci, attr)
+        if prop is not None and interp is not None and isinstance(prop[0], tuple):
+            return self._run_getter(interp, prop[0], inst, st, fr, receiver=ci, self_value=inst)
         if prop is not None and interp is not None and isinstance(prop[0], FUNC_TYPES):
             # a property is a data descriptor: it wins over whatever the instance's own dict holds under that name
             if self._decorators(prop[0]) & {"property", "cached_property"}:
@@ -203,7 +214,9 @@ class ObjectDomain(LazyGenerators, EffectDomain):
             return self._run_getter(interp, getter, inst, st, fr, receiver=ci, self_value=inst)   # name = property(getter, ...): the getter runs
         got = self._class_attr_expr(ci, attr)
         if got is not None and interp is not None:
-            return self._eval_class_expr(interp, got[0], got[1], st, fr)
+            # (a function kept in a class attribute is a method: looked up on an instance it is bound to it)
+            return [r if r.kind == "exc" or not (isinstance(r.value, tuple) and r.value[:1] == ("func",)) else val(("partial", r.value, (inst,), ()), r.state)
+                    for r in self._eval_class_expr(interp, got[0], got[1], st, fr)]
         fallback = self._method(ci, "__getattr__") if not (attr.startswith("__") and attr.endswith("__")) else None
         if fallback is not None and interp is not None:
             # normal lookup failed: the class's __getattr__ answers
@@ -230,6 +243,8 @@ class ObjectDomain(LazyGenerators, EffectDomain):
                 s_ = self._method(c, s_.id) if isinstance(s_, ast.Name) else s_
                 if isinstance(g, FUNC_TYPES):
                     return g, (s_ if isinstance(s_, FUNC_TYPES) else None)
+                if isinstance(g, (ast.Call, ast.Lambda, ast.Attribute)):
+                    return ("made", c, g, None), (s_ if isinstance(s_, FUNC_TYPES) else None)
                 return None
             if name in c.methods or name in c.attrs:
                 return None
@@ -345,7 +360,7 @@ class ObjectDomain(LazyGenerators, EffectDomain):
             return self._root_attr(interp, chain, st, fr)
         else:
             return None
-        if not is_inst(base) and not (base == ("self",) and chain[0] != fr.selfname):
+        if not is_inst(base) and not (base == ("self",) and chain[0] != fr.selfname) and not (isinstance(base, tuple) and base[:1] == ("wobj",) and st.has(fr.local(chain[0]))):
             if fr.instance is None and fr.selfname and chain[0] == fr.selfname:
                 return self._root_attr(interp, chain, st, fr)
             if len(chain) == 2 and isinstance(base, tuple) and base[:1] in (("tuple",), ("decoder",)):
@@ -365,6 +380,8 @@ class ObjectDomain(LazyGenerators, EffectDomain):
 
     def attr_of_value(self, interp, value, attr, st, fr):
         """``<value>.attr`` for the objects of this model (None: not one of them)."""
+        if attr == "append" and is_handle(value) and isinstance(st.get(heap_key(value), None), tuple) and st.get(heap_key(value))[:1] == ("tuple",):
+            return [val(("listappend", heap_key(value)), st)]   # <a list some object keeps>.append taken as a value: bound to that very list
         if attr == "__dict__" and (is_inst(value) or value == ("self",)):
             prefix = f"inst.{value[1]}." if is_inst(value) else "self."
             items = sorted((k[len(prefix):], v) for k, v in st.items if k.startswith(prefix) and "." not in k[len(prefix):] and not k[len(prefix):].startswith("__"))
@@ -1056,7 +1073,15 @@ class ObjectDomain(LazyGenerators, EffectDomain):
         if tag == "methodcaller" and len(pos) == 1:
             target = pos[0]
             if is_inst(target):
-                got = self.call_method(interp, target, fn[1], list(fn[2]), list(fn[3]), st, fr)
+                got = self.call_method(interp, target, fn[1], list(fn[2]), list(fn[3]), st, fr) if self._method(target[2], fn[1]) is not None else None
+                if got is None:
+                    # not a method the class defines: whatever the attribute is (a callable stored on the instance, object.__setattr__ ...) is called
+                    found = self._inst_attr(interp, target, fn[1], st, fr)
+                    if found is not None:
+                        out = []
+                        for g in found:
+                            out.extend([g] if g.kind == "exc" else self.apply(interp, g.value, list(fn[2]), list(fn[3]), g.state, fr))
+                        return out
                 return got if got is not None else [val(TOP, st)]
             if isinstance(target, tuple) and target[:1] == ("wobj",):
                 return self.call_bound_values(("bound", target[1], fn[1]), list(fn[2]), list(fn[3]), st)
